@@ -72,6 +72,9 @@ def check(run):
     mirrors(run, p)
     sem(run, p, km)
     fuzz(run, p, km)
+    from .. import ief, triage
+    ief.run_ief(run, 'C02', [p.fn('verify_df')], triage=triage.IEF)
+    run.floor('C02-IEF', run.units['ief_functions_checked'], 80)
 
 
 def value_names(f):
